@@ -87,6 +87,8 @@ pub struct Execution<R> {
     pub overlapped: bool,
     /// every live thread was waiting for a lock (instrumented build only)
     pub deadlocked: bool,
+    /// a recorded prefix could not be replayed (behaviour depends on an earlier execution)
+    pub diverged: bool,
 }
 
 /// One thread body: runs with the gate installed; must call `point()` (directly or through callbacks).
@@ -129,6 +131,7 @@ pub fn run_once<R: Send + 'static + Default>(bodies: &[Body<R>], prefix: &[usize
     // a thread waiting for a lock may retry only after another thread has run
     let mut retry_ok: Vec<bool> = vec![false; n];
     let mut deadlocked = false;
+    let mut diverged = false;
     // the thread the controller is currently waiting for (None at the start: wait for everybody)
     let mut awaited: Option<usize> = None;
     'outer: loop {
@@ -230,21 +233,15 @@ pub fn run_once<R: Send + 'static + Default>(bodies: &[Body<R>], prefix: &[usize
         let k = points.len();
         let choice = if k < prefix.len() { prefix[k] } else { 0 };
         if choice >= enabled.len() {
-            if overlapped {
-                // a loose thread made this replay diverge: give up on this schedule
-                st.free_run = true;
-                s.cv.notify_all();
-                infeasible = true;
-                break 'outer;
-            }
-            // divergence while replaying a prefix under full control: hard error
+            // The prefix cannot be replayed: this execution met different scheduling points than the one the
+            // prefix was recorded from. Under full control that means the subject's behaviour depends on
+            // something that survived from an earlier execution (a global cache, a lazily initialised static):
+            // the schedule is given up and counted, it is not a verdict by itself.
             st.free_run = true;
             s.cv.notify_all();
-            drop(st);
-            for h in handles {
-                let _ = h.join();
-            }
-            panic!("E-SCHED: replay diverged at point {k}: choice {choice} of {enabled:?}");
+            infeasible = true;
+            diverged = true;
+            break 'outer;
         }
         let tid = enabled[choice];
         points.push(Point { enabled, running_still_enabled });
@@ -263,7 +260,7 @@ pub fn run_once<R: Send + 'static + Default>(bodies: &[Body<R>], prefix: &[usize
     for h in handles {
         results.push(h.join().ok().flatten().unwrap_or_default());
     }
-    Execution { points, choices, results, infeasible, overlapped, deadlocked }
+    Execution { points, choices, results, infeasible, overlapped, deadlocked, diverged }
 }
 
 pub struct Exploration {
@@ -271,17 +268,19 @@ pub struct Exploration {
     pub infeasible: u64,
     pub overlapped: u64,
     pub deadlocks: Vec<Vec<usize>>,
+    pub diverged: u64,
     pub max_points: usize,
 }
 
 /// Explore every schedule with at most `bound` preemptions (CHESS-style, by re-execution).
 /// `check` is called with (choices, results) of every complete feasible execution.
-pub fn explore<R: Send + 'static + Default>(bodies: &[Body<R>], bound: usize, check: &mut dyn FnMut(&[usize], &[R])) -> Exploration {
-    let mut ex = Exploration { executions: 0, infeasible: 0, overlapped: 0, deadlocks: vec![], max_points: 0 };
+pub fn explore<R: Send + 'static + Default>(bodies: &[Body<R>], bound: usize, reset: &dyn Fn(), check: &mut dyn FnMut(&[usize], &[R])) -> Exploration {
+    let mut ex = Exploration { executions: 0, infeasible: 0, overlapped: 0, deadlocks: vec![], diverged: 0, max_points: 0 };
     fn preemptions(points: &[Point], choices: &[usize], upto: usize) -> usize {
         (0..upto).filter(|&i| points[i].running_still_enabled && choices[i] != 0).count()
     }
-    fn rec<R: Send + 'static + Default>(bodies: &[Body<R>], bound: usize, prefix: Vec<usize>, ex: &mut Exploration, check: &mut dyn FnMut(&[usize], &[R])) {
+    fn rec<R: Send + 'static + Default>(bodies: &[Body<R>], bound: usize, prefix: Vec<usize>, ex: &mut Exploration, reset: &dyn Fn(), check: &mut dyn FnMut(&[usize], &[R])) {
+        reset(); // every execution starts from the same initial state
         let x = run_once(bodies, &prefix);
         ex.executions += 1;
         ex.max_points = ex.max_points.max(x.points.len());
@@ -290,6 +289,9 @@ pub fn explore<R: Send + 'static + Default>(bodies: &[Body<R>], bound: usize, ch
         }
         if x.deadlocked {
             ex.deadlocks.push(x.choices.clone());
+        }
+        if x.diverged {
+            ex.diverged += 1;
         }
         if x.infeasible {
             ex.infeasible += 1;
@@ -308,10 +310,10 @@ pub fn explore<R: Send + 'static + Default>(bodies: &[Body<R>], bound: usize, ch
             for alt in 1..p.enabled.len() {
                 let mut np: Vec<usize> = x.choices[..i].to_vec();
                 np.push(alt);
-                rec(bodies, bound, np, ex, check);
+                rec(bodies, bound, np, ex, reset, check);
             }
         }
     }
-    rec(bodies, bound, vec![], &mut ex, check);
+    rec(bodies, bound, vec![], &mut ex, reset, check);
     ex
 }
